@@ -95,8 +95,16 @@ pub fn run(sim: &Sim, prop: &str, tier: Tier) -> Outcome {
     let kind = LinkKind::from_index(sim.draw(3));
     let mode = sim.draw(7);
     // addresses: distinct, or both broadcast
-    let a = sim.pick(&[0x0101u16, 0x0001, 0xffff, 0x0000, 0xab00]);
-    let mut b = sim.pick(&[0x0202u16, 0xffff, 0x0000, 0x00ff, 0x0100]);
+    let a = match sim.draw(7) {
+        6 => sim.u16_any(),
+        5 => sim.pick(&[0xfffeu16, 0x7fff, 0xff00, 0x8000]),
+        k => [0x0101u16, 0x0001, 0xffff, 0x0000, 0xab00][k as usize],
+    };
+    let mut b = match sim.draw(7) {
+        6 => sim.u16_any(),
+        5 => sim.pick(&[0xfffeu16, 0x7fff, 0xff00, 0x8000]),
+        k => [0x0202u16, 0xffff, 0x0000, 0x00ff, 0x0100][k as usize],
+    };
     if a == b && a != BROADCAST_ADDRESS {
         b ^= 0x0030;
     }
